@@ -1,7 +1,7 @@
 (* Property C08 - only statements, each closed by [exact]. *)
 From Coq Require Import NArith List Bool Sorting.Sorted Permutation.
 Import ListNotations.
-Require Import UV.C08.Model UV.C08.Proofs UV.C08.Figures UV.C08.Open UV.C08.Order UV.C08.Checker.
+Require Import UV.C08.Model UV.C08.Proofs UV.C08.Figures UV.C08.Open UV.C08.Order UV.C08.Checker UV.C08.OpenSpec.
 Local Open Scope N_scope.
 
 (* The accumulation automaton of fstack_account_time + report_update_node (uint64 arithmetic, clamp
@@ -83,17 +83,25 @@ Theorem C08_self_partition : forall nms rows, sumN (map w_self rows) < M64 ->
 Proof. exact self_partition. Qed.
 Print Assumptions C08_self_partition.
 
-(* THE PROPERTY ON THE MODEL (completed calls): for every set of tasks of completed, well-timed calls nested
-   below max_stack with a total below 2^64 ns, the executable checker that is applied to the implementation's
-   table on every run (each function once; Calls, Total, Self, min, max, avg exact; Self column = summed
-   duration of the top-level calls) accepts the model's report.  Partial: tasks with calls open at the end
-   are covered by C08_open_calls at row level, not by this statement. *)
-Theorem C08_checker_accepts_model_closed_partial : forall max_stack nms tts,
-  Forall (closed_task max_stack) tts ->
+(* Per task, calls still open at the end included: the Self times of all counted rows add up to the summed
+   duration of the task's top-level calls (an open top-level call lasting until the task's last record). *)
+Theorem C08_conservation_task : forall max_stack tt, good_task max_stack tt ->
+  sum_self (spec_task tt) = top_time tt
+  /\ Permutation (task_rows max_stack (trace_recs tt)) (spec_task tt).
+Proof. exact (fun m tt H => conj (top_time_good m tt H) (task_rows_good m tt H)). Qed.
+Print Assumptions C08_conservation_task.
+
+(* THE PROPERTY ON THE MODEL: for every set of tasks, each a sequence of completed well-timed calls followed by
+   a chain of calls still open at the end, nested below max_stack, with a grand total below 2^64 ns, the
+   executable checker that is applied to the implementation's table on every run (each function once; Calls,
+   Total, Self, min, max, avg exact; Self column = summed duration of the top-level calls) accepts the
+   model's report. *)
+Theorem C08_checker_accepts_model : forall max_stack nms tts,
+  Forall (good_task max_stack) tts ->
   sumN (map w_total (concat (map spec_task tts))) < M64 ->
   ok_table nms tts (report (mkcase max_stack nms (map trace_recs tts))) = true.
-Proof. exact checker_accepts_model_closed. Qed.
-Print Assumptions C08_checker_accepts_model_closed_partial.
+Proof. exact checker_accepts_model. Qed.
+Print Assumptions C08_checker_accepts_model.
 
 (* report_sort_nodes: a permutation of the table in which no row stands before a larger one under the
    key list, rows equal under all keys in name order - for every key list. *)
